@@ -1,0 +1,8 @@
+//go:build verif
+
+package coordinator
+
+import "net"
+
+// VerifHandleConn exposes handleConn to the external verification harness.
+func (s *Service) VerifHandleConn(conn net.Conn) { s.handleConn(conn) }
